@@ -120,6 +120,11 @@ mod msgq {
             self.len_bytes += msg.len_bytes();
             self.queue.push_back(msg);
         }
+
+        pub(crate) fn push_front(&mut self, msg: UserRxMessage) {
+            self.len_bytes += msg.len_bytes();
+            self.queue.push_front(msg);
+        }
     }
 }
 
@@ -188,6 +193,12 @@ impl UtpStreamReadHalf {
                         self.current = Some(BeingRead { payload, offset: 0 })
                     }
                     UserRxMessage::Error(msg) => {
+                        if written > 0 {
+                            // Hand over the data that was copied so far; the error is
+                            // reported by the next read.
+                            g.queue.push_front(UserRxMessage::Error(msg));
+                            break;
+                        }
                         return Poll::Ready(Err(std::io::Error::other(msg)));
                     }
                 }
